@@ -505,6 +505,12 @@ impl Context {
             (Literal::Map(m), CodegenTy::BTreeMap(k_ty, v_ty)) => {
                 (mk_map(m, k_ty, v_ty, true)?, false)
             }
+            // a set constant is a lazy static too, and its literal is a list
+            (Literal::List(_), CodegenTy::LazyStaticRef(set))
+                if matches!(&**set, CodegenTy::Set(_) | CodegenTy::BTreeSet(_)) =>
+            {
+                self.lit_into_ty(lit, set)?
+            }
             (Literal::List(l), CodegenTy::LazyStaticRef(map)) => {
                 assert!(l.is_empty());
                 match &**map {
@@ -673,6 +679,20 @@ impl Context {
                 }
                 _ => panic!("invalid map type {:?}", map),
             },
+            (Literal::List(_), CodegenTy::StaticRef(set))
+                if matches!(&**set, CodegenTy::Set(_) | CodegenTy::BTreeSet(_)) =>
+            {
+                let lazy_set =
+                    self.def_lit("INNER_SET", lit, &mut CodegenTy::LazyStaticRef(set.clone()))?;
+                let stream = format! {
+                    r#"{{
+                        {lazy_set}
+                        &*INNER_SET
+                    }}"#
+                }
+                .into();
+                (stream, false)
+            }
             (Literal::List(els), CodegenTy::Array(inner, _)) => {
                 let stream = els
                     .iter()
